@@ -1,8 +1,8 @@
 """Sidecar contracts for the boundary adjusters of C14: dejitter.
 
 The reference tier is represented by an object with just a `timestamps` attribute (spec.harness.Ref): dejitter uses
-nothing else of it.  That `TextgridTier.timestamps` is the strictly sorted set of a tier's boundary times is a clause
-of C15 that stays with the bounded check c15_queries (set() is outside the engine's list model)."""
+nothing else of it.  That `TextgridTier.timestamps` is the strictly sorted set of a tier's boundary times is proved
+separately (contracts/c_queries.py), which is exactly what `ref()` assumes of the list."""
 from pyvc.contracts import contract
 from contracts.c_tiers import wf_interval_tier, wf_point_tier, wf_interval_clauses, IT, PT
 
